@@ -7,6 +7,9 @@
 
 #include <nop/status.h>
 #include <nop/table.h>
+#include <fcntl.h>
+#include <unistd.h>
+#include <nop/types/file_handle.h>
 #include <nop/types/handle.h>
 #include <nop/types/optional.h>
 #include <nop/types/result.h>
@@ -430,6 +433,70 @@ static void RunHandle(const Json& ops, JsonOut& o) {
   o.end_obj();
 }
 
+// UniqueFileHandle over real descriptors: closure is observed with fcntl().
+static void RunFileHandle(const Json& ops, JsonOut& o) {
+  using UF = nop::UniqueFileHandle;
+  int fds[kResources];
+  int released[kResources];
+  for (int i = 0; i < kResources; i++) { fds[i] = ::open("/dev/null", O_RDONLY); released[i] = 0; }
+  auto res_of = [&](int fd) { for (int i = 0; i < kResources; i++) if (fds[i] == fd) return i; return fd < 0 ? -1 : -2; };
+  alignas(UF) unsigned char storage[kSlots][sizeof(UF)];
+  UF* slots[kSlots] = {nullptr, nullptr, nullptr};
+  auto observe = [&](JsonOut& out) {
+    out.key("obs");
+    out.begin_arr();
+    for (int s = 0; s < kSlots; s++) {
+      out.begin_obj();
+      out.kv_bool("ex", slots[s] != nullptr);
+      if (slots[s]) { out.kv_num("val", res_of(slots[s]->get())); out.kv_bool("bool", static_cast<bool>(*slots[s])); }
+      out.end_obj();
+    }
+    out.end_arr();
+    out.key("closed"); out.begin_arr(); for (int i = 0; i < kResources; i++) out.num(::fcntl(fds[i], F_GETFD) == -1 ? 1 : 0); out.end_arr();
+    out.key("released"); out.begin_arr(); for (int i = 0; i < kResources; i++) out.num(released[i]); out.end_arr();
+  };
+  o.key("ops");
+  o.begin_arr();
+  for (auto& opj : ops.a) {
+    const std::string& op = opj.at("op").s;
+    const int s = static_cast<int>(opj.at("o").num(0));
+    const int p = static_cast<int>(opj.at("p").num(0));
+    const int r = static_cast<int>(opj.at("r").num(0));
+    bool bad = false;
+    int got = -9;
+    void* mem = storage[s];
+    if (op.compare(0, 4, "new_") == 0) {
+      if (slots[s]) bad = true;
+      else if (op == "new_empty") slots[s] = new (mem) UF();
+      else if (op == "new_res") slots[s] = new (mem) UF(fds[r]);
+      else if (op == "new_move") { if (!slots[p]) bad = true; else slots[s] = new (mem) UF(std::move(*slots[p])); }
+      else bad = true;
+    } else if (!slots[s]) bad = true;
+    else if (op == "assign_move") { if (!slots[p]) bad = true; else *slots[s] = std::move(*slots[p]); }
+    else if (op == "release") { int fd = slots[s]->release(); got = res_of(fd); if (got >= 0) released[got]++; }
+    else if (op == "close") slots[s]->close();
+    else if (op == "destroy") { slots[s]->~UF(); slots[s] = nullptr; }
+    else bad = true;
+    o.begin_obj();
+    o.kv_str("op", op);
+    o.kv_num("o", s);
+    if (opj.has("p")) o.kv_num("p", p);
+    if (opj.has("r")) o.kv_num("r", r);
+    if (op == "release") o.kv_num("got", got);
+    if (bad) o.kv_bool("bad", true);
+    observe(o);
+    o.end_obj();
+  }
+  o.end_arr();
+  for (int s = 0; s < kSlots; s++) if (slots[s]) slots[s]->~UF();
+  o.key("end");
+  o.begin_obj();
+  observe(o);
+  o.kv_num("bad_close", 0);
+  o.end_obj();
+  for (int i = 0; i < kResources; i++) if (::fcntl(fds[i], F_GETFD) != -1) ::close(fds[i]);
+}
+
 static void CmdObj(const Json& cmd, JsonOut& o) {
   const std::string& m = cmd.at("machine").s;
   o.kv_str("e", "OBJ");
@@ -441,6 +508,7 @@ static void CmdObj(const Json& cmd, JsonOut& o) {
   else if (m == "entry") OptMachine<nop::Entry<ElemA, 5>, ElemA>::Run(cmd.at("ops"), o);
   else if (m == "result") RunResult(cmd.at("ops"), o);
   else if (m == "uhandle") RunHandle(cmd.at("ops"), o);
+  else if (m == "ufile") RunFileHandle(cmd.at("ops"), o);
   else o.kv_bool("badmachine", true);
 }
 
